@@ -31,12 +31,23 @@ def main(chk, prop, spec, tier, seed):
         chk.build(ALL8, "dbg")
         chk.build_variants([(c, "asan") for c in asan_cfgs])
         chk.build_variants(sorted(set(miri_jobs_cfg)))
+        hard = chk.ensure_hard()
     known = chk.load_known()
     results = {}
     extra_viol = []
     base = ["c08", "--tier", tier, "--seed", str(seed)]
+    full = base + ["--hard", hard]  # release / dbg / asan also run the valid-digit slice
 
     def dead(cfg, variant, argv, rc, err):
+        if not variant.startswith("miri"):
+            # case-level localisation for parse_float inputs of the valid-digit slice
+            cmd, env = chk.variant_cmd(cfg, variant, argv)
+            v = chk.localise_crash(cfg, variant, argv, env)
+            if v is not None and v.get("int") is not None and "replay-parse" in v.get("replay_argv", []):
+                v["cfg"] = cfg
+                path = chk.write_replay(prop, cfg, variant, v, len(extra_viol))
+                extra_viol.append((path, v))
+                return
         job, msg = find_culprit(chk, cfg, variant, argv)
         v = {"kind": "engine-died", "fmt": "-", "cfg": cfg, "show": f"{' '.join(argv)} (job {job}) in build variant {variant}",
              "got": f"exit status {rc}: {msg}", "want": "every call returns a value or unwinds", "replay_argv": argv, "fam": "BYTES"}
@@ -46,9 +57,9 @@ def main(chk, prop, spec, tier, seed):
     # release / dbg / asan: the whole BYTES(3) family
     for variant, cfgs in (("release", ALL8), ("dbg", ALL8), ("asan", asan_cfgs)):
         for cfg in cfgs:
-            res, rc, out, err = chk.run_variant(cfg, variant, base)
+            res, rc, out, err = chk.run_variant(cfg, variant, full)
             if res is None or rc != 0:
-                dead(cfg, variant, base, rc, err)
+                dead(cfg, variant, full, rc, err)
                 continue
             res["_exit"] = 0
             results[(cfg, variant)] = res
